@@ -115,7 +115,9 @@ func createStepCmafIngesterHdlr(s *Server) func(ctx context.Context, input *idIn
 		if !ok {
 			return nil, huma.Error404NotFound(fmt.Sprintf("CMAF ingest %s not found", input.Id))
 		}
-		ci.triggerNextSegment()
+		if !ci.triggerNextSegment() {
+			return nil, huma.Error409Conflict(fmt.Sprintf("CMAF ingest %s has ended", input.Id))
+		}
 		resp := &CmafIngestStepResponse{}
 		resp.Body.ID = fmt.Sprintf("Stepped %s!", input.Id)
 		return resp, nil
